@@ -1153,14 +1153,20 @@ def tie_regenerated_loops(run, base_ok):
     if not base_ok:
         run.notes.append("tie (loops): not rebuilt, the regenerated varAnd / varOr they call are not (provably) the model")
         return False
-    if build_gen(run, "Props/C02_gen_loops.v", extra=["Corr/C02_loops.v"]):
+    if build_gen(run, "Props/C02_gen_loops.v"):
         run.notes.append("tie (loops): regenerated (%s)" % ", ".join(done))
         run.extra_cov["tie_loops"] = ("translation (regenerated loops proved equal to full_simple / full_plus / full_comma of "
                                       "Model/C03_Full.v: %s)" % ", ".join(done))
         run.trusted.append("loops dialect of harness/c02_py2coq.py (signature table: `population` = the caller's list object, a "
                            "Statistics object and a HallOfFame given, verbose false, toolbox.map lazy; toolbox.select / evaluate / "
                            "stats.compile / halloffame.update / logbook.record mapped to the statements of coq/Model/C02_GenLoopsRt.v)")
-        return True
+        # the runner that replays recorded runs through the regenerated loops depends on the case format of Corr/C03_Full.v
+        # (C03's file): when it does not build, the replay is skipped -- that is not an obligation of this property
+        ok2, out = vlib.make_targets(["Corr/C02_loops.vo"])
+        if not ok2:
+            run.notes.append("loops correspondence skipped: Corr/C02_loops.v does not build against the current Corr/C03_Full.v (%s)"
+                             % out[-300:])
+        return ok2
     run.extra_cov["tie_loops"] = "translator succeeded but the regenerated loops are no longer (provably) the composed model"
     run.loops_broken = True
     try:
